@@ -343,6 +343,61 @@ def mutation_consistency(tier, res, seed=0):
     return trans
 
 
+# --------------------------------------------------------------------------- queries before an in-place move
+
+MOVE_VECS = ((0.5, -1.0, 2.0), (-2.0, 0.25, 1.0))
+
+
+def move_history(oname, vi, q1, q2):
+    """twin A: q1 ; o.move(v) ; q2      twin B: o.move(v) ; q2      (no attribute of o is read in between: a snapshot
+    would itself be a query).  Returns the two answers."""
+    out = []
+    for with_q1 in (True, False):
+        need = set(q2[1:]) | (set(q1[1:]) if with_q1 else set())
+        pool = {k: lib.construct(k, BUILDERS[k]) for k in need}
+        if with_q1:
+            run_query(pool, q1)
+        pool[oname].move(Vector(*MOVE_VECS[vi]))
+        out.append(answer(run_query(pool, q2)))
+    return out
+
+
+def _move_job(arg):
+    tier, oname = arg
+    names = pool_for(tier)
+    qs = [q for q in query_instances(names) if oname in q[1:]]
+    viols = []
+    n = 0
+    for vi in range(len(MOVE_VECS) if tier != 'quick' else 1):
+        for q1 in qs:
+            for q2 in qs:
+                if tier == 'quick' and q2[0] in ('repr', 'eq') :
+                    continue
+                a, b = move_history(oname, vi, q1, q2)
+                n += 1
+                if a != b:
+                    viols.append(Viol('C20|move-order|%s|%s-before-move-changes-%s' % (tn(oname), q1[0], q2[0]), core.enc(('move-order', oname, vi, q1, q2)),
+                                      b[:300], a[:300], 'after %s.move(v), %r answers differently depending on whether %r ran before the move' % (oname, q2, q1),
+                                      family='move-order'))
+    return n, viols
+
+
+def move_order(tier, res, seed=0):
+    import multiprocessing
+    names = pool_for(tier)
+    objs = [n for n in names if tn(n) in GEO]
+    ctx = multiprocessing.get_context('fork')
+    trans = 0
+    with ctx.Pool(min(core.NPROC, len(objs))) as pool:
+        for n, viols in pool.imap_unordered(_move_job, [(tier, o) for o in objs]):
+            trans += n
+            for v in viols:
+                res.add_viol(v)
+    res.extra['move_order'] = {'objects': objs, 'twin_histories': trans, 'move_vectors': list(MOVE_VECS[:len(MOVE_VECS) if tier != 'quick' else 1])}
+    res.samples.append({'move-order-history': ['Point#0 in Segment#0', 'Segment#0.move(v)', 'intersection(Segment#0, Line#0)', 'vs the same without the first query']})
+    return trans
+
+
 # --------------------------------------------------------------------------- ownership
 
 def tetra_faces():
@@ -588,17 +643,19 @@ def run(tier, seed):
     s1, t1 = purity(tier, res, seed)
     s2, t2 = ownership(tier, res, seed)
     t3 = mutation_consistency(tier, res, seed)
+    t4 = move_order(tier, res, seed)
     res.states = s1 + s2
-    res.transitions = t1 + t2 + 3 * t3
-    res.traces = t1 + t2 + t3
-    res.evals = t1 + t2 + 3 * t3
+    res.transitions = t1 + t2 + 3 * t3 + 5 * t4
+    res.traces = t1 + t2 + t3 + 2 * t4
+    res.evals = t1 + t2 + 3 * t3 + 5 * t4
     res.nontrivial = res.extra['purity']['distinct_answers']
     res.rule = ('purity: states = bit-exact snapshots of (pool of objects of all types, all Geometry3D module globals) - every query instance and every '
                 'ordered pair of query instances (quick: pairs sharing an operand) is executed and must be a self-loop with history-independent answers; '
                 'ownership: every history up to the stated depth over {each in-place mutation of each shared constructor argument, deepcopy, move copy, move '
                 'original} for each composite recipe, value snapshots compared after every step; states counted = 1 pool state + 1 per composite recipe '
                 '(all transitions must be self-loops on the observed value); mutation consistency: for every Point / Vector of the pool, every (query, in-place coordinate '
-                'assignment, query) history must answer like a freshly constructed operand')
+                'assignment, query) history must answer like a freshly constructed operand; move order: for every geometry object o of the pool and every pair '
+                '(q1, q2) of query instances involving o, q2 after o.move(v) must answer the same whether or not q1 ran before the move')
     lib.assert_default_tolerance()
     return res
 
@@ -618,6 +675,9 @@ def replay(family, scene):
         pool2[oname] = (Point if t == 'Point' else Vector)(*newc(c0))
         exp = answer(run_query(pool2, q2))
         return [] if a2 == exp else [Viol('C20|mutation|%s.%s|%s-then-%s|stale-answer-after-in-place-mutation' % (t, mname, q1[0], q2[0]), scene, exp[:300], a2[:300], '')]
+    if sc[0] == 'move-order':
+        a, b = move_history(sc[1], sc[2], tuple(sc[3]), tuple(sc[4]))
+        return [] if a == b else [Viol('C20|move-order|%s|%s-before-move-changes-%s' % (tn(sc[1]), sc[3][0], sc[4][0]), scene, b[:300], a[:300], '')]
     if sc[0] == 'ownership':
         probs = run_history(sc[1], tuple(tuple(x) for x in sc[2]))
         return [Viol('C20|ownership|%s|%s' % (sc[1], sym), scene, 'composite owns its data', det, sym) for sym, det in probs]
